@@ -702,8 +702,40 @@ class Gen:
         return Stmt("format(%s)" % body, "format", label=label, nofuse=True, f08=self.f08_used > f08_before)
 
     # --------------------------------------------------------- exec statements
+    def wide_stmt(self):
+        """A statement with 10-16 distinct parenthesised groups at one nesting level (long sums of references,
+        long argument lists, many array entities): exercises fparser's per-line replacement maps beyond key 9."""
+        r = self.r
+        n = r.n(10, 16)
+        c = r.n(0, 3)
+        terms = []
+        for i in range(n):
+            k = r.n(0, 3)
+            if k == 0:
+                terms.append("%s(%d, %d)" % (self.name(ARR_NAMES), i + 1, 2 * i + 3))
+            elif k == 1:
+                terms.append("%s(%s, %d)" % (self.name(FUN_NAMES), self.name(NUM_NAMES), i))
+            elif k == 2:
+                terms.append("(%s %s %d)" % (self.name(NUM_NAMES), r.pick(["+", "*", "-"]), i + 20))
+            else:
+                terms.append("%s(%d:%d)" % (self.name(ARR_NAMES), i, i + 40))
+        if c == 0:
+            return Stmt("%s = %s" % (self.name(NUM_NAMES), " + ".join(terms)), "assign", removable=True)
+        if c == 1:
+            return Stmt("%s = %s" % (self.name(NUM_NAMES), " * ".join(terms)), "assign", removable=True)
+        if c == 2:
+            return Stmt("call %s(%s)" % (self.name(SUB_NAMES), ", ".join(terms)), "call", removable=True)
+        return Stmt("print *, %s" % ", ".join(terms), "print", removable=True)
+
+    def wide_decl(self):
+        n = self.r.n(10, 14)
+        ents = ["w%d(%d, %d)" % (i, i + 1, 2 * i + 30) for i in range(n)]
+        return Stmt("real :: %s" % ", ".join(ents), "type_decl", removable=True)
+
     def assign_stmt(self):
         r = self.r
+        if r.chance(4):
+            return self.wide_stmt()
         typ = r.wpick([(6, "num"), (2, "log"), (2, "chr")])
         t = self.tree(typ)
         lhs = self.variable(typ)
@@ -1176,7 +1208,9 @@ class Gen:
             items.append(self.implicit_stmt())
         for _ in range(r.n(0, self.o.max_stmts)):
             c = r.n(0, 11)
-            if c <= 4:
+            if r.chance(3):
+                items.append(self.wide_decl())
+            elif c <= 4:
                 items.append(self.type_decl(ctx))
             elif c <= 7:
                 items.append(self.attr_stmt(ctx))
